@@ -133,7 +133,7 @@ def _rest(ctx, fc, C):
                     if "auxes" in src(g.iter):
                         out.append(" and ".join(sorted(src(i) for i in g.ifs)) if g.ifs else "<all>")
             elif isinstance(n, ast.For) and "auxes" in src(n.iter):
-                conds = [src(t.test) for t in ast.walk(n) if isinstance(t, ast.If) and ("insular" in src(t.test) or "razeable" in src(t.test))]
+                conds = [src(t.test) for t in ast.walk(n) if isinstance(t, ast.If) and any(w in src(t.test) for w in ("insular", "razeable", "original"))]
                 out.extend(" and ".join(sorted(c.split(" and "))) for c in conds)
             elif depth < 1 and isinstance(n, ast.Call) and isinstance(n.func, ast.Attribute) and n.func.attr in F_.methods \
                     and dotted(n.func.value) in ("frame", "self"):
@@ -154,10 +154,40 @@ def _rest(ctx, fc, C):
     ex = P.call_nodes("self.exitAll")
     ctx.check(bool(dl) and bool(ex) and all(d.id in P.reach(ex[0]) for d in dl), "T1-raze", pf, "prune: force exit then del Framer.Names[self.name]",
               "the razed clone's name must become free")
-    pfil = aux_filters(pf)
-    ctx.check(bool(pfil) and all(f == "aux.insular" for f in pfil), "T1-raze", pf,
-              "prune recursively prunes every insular aux of every frame (filters: %s)" % sorted(set(pfil)),
-              "a razed clone must take all its own insular clones with it (statically declared `as mine` clones are insular but "
-              "not razeable): otherwise their names stay registered and the next rear of the same moot collides")
+    # which auxes of a frame are pruned: the selection condition, wherever it is written (comprehension filter, guard, continue)
+    from ..rules import path_condition, formula_equiv, _atom
+    pcalls = [(n, c) for n, c in P.attr_calls(("prune",)) if isinstance(c.func.value, ast.Name)]
+    okp = bool(pcalls)
+    seen_f = []
+    for n, c in pcalls:
+        var = c.func.value.id
+        loops = [h for h in P.cfg.nodes if h.kind == "for" and id(n.ast) in {id(x) for x in ast.walk(h.ast)} and dotted(h.ast.target) == var]
+        if not loops:
+            okp = False
+            continue
+        h = max(loops, key=lambda x: getattr(x.ast, "lineno", 0))
+        it = P.sym(h.ast.iter, h)
+        if isinstance(it, ast.Call) and call_name(it) in ("list", "tuple") and it.args:
+            it = it.args[0]
+        conj = [path_condition(P, n, start=[b_ for b_, lab in P.cfg.succ[h.id] if lab == "iter"], by_value=False)]
+        if isinstance(it, (ast.ListComp, ast.GeneratorExp)) and len(it.generators) == 1 and isinstance(it.generators[0].target, ast.Name):
+            g = it.generators[0]
+            base = src(g.iter)
+            for cond in g.ifs:
+                txt = src(cond)
+                if g.target.id != var:
+                    import re as _re
+                    txt = _re.sub(r"\b%s\b" % g.target.id, var, txt)
+                conj.append(_atom(ast.parse(txt, mode="eval").body))
+        else:
+            base = src(it)
+        f_ = ("and", conj)
+        seen_f.append(base)
+        okp = okp and base == "frame.auxes" and formula_equiv(f_, "not %s.original" % var)
+    ctx.check(okp, "T1-raze", pf,
+              "prune recursively prunes every clone aux (insular or named) of every frame (over %s)" % sorted(set(seen_f)),
+              "a razed clone must take all its own clones with it - `as mine` clones and named clones alike: each belongs to one "
+              "frame of this framer and is registered as <this framer>_<tag>; one that survives keeps that name taken and the next "
+              "rear of the same moot raises CloneError (statically declared `as mine` clones are insular but not razeable)")
     ctx.check(bool(_framing.call_in_loop(P, "prunables", "aux.prune")) or "aux.prune()" in src(pf), "T1-raze", pf, "prune recurses into nested clones", "")
     _registry.registry_binding(ctx)
